@@ -171,6 +171,7 @@ impl Prop for C15 {
                 max_len: 600,
                 seed,
                 seeds: crate::fuzz::random_seeds(seed, 24, 600),
+                max_time: 1500,
             },
             ev,
         ));
